@@ -68,8 +68,15 @@ func exactCanon(mm *gostatsd.MetricMap) string {
 	return strings.Join(lines, "\n")
 }
 
-func exactEvent(e *gostatsd.Event) string {
-	return fmt.Sprintf("E|title=%q|text=%q|date=%d|key=%q|srctype=%q|tags=%q|source=%q|pri=%d|alert=%d", e.Title, e.Text, e.DateHappened, e.AggregationKey, e.SourceTypeName, []string(e.Tags), e.Source, e.Priority, e.AlertType)
+// exactEvent renders an event; given is true for what the forwarder was handed, false for what the
+// ingestion node dispatched. An event given without a date is dated by the ingestion node at receipt
+// (the simulated clock starts in 2000, the dates the workload gives are later than 2023).
+func exactEvent(e *gostatsd.Event, given bool) string {
+	date := fmt.Sprint(e.DateHappened)
+	if (given && e.DateHappened == 0) || (!given && e.DateHappened >= 946684800 && e.DateHappened < 946684800+50000000) {
+		date = "time-of-receipt"
+	}
+	return fmt.Sprintf("E|title=%q|text=%q|date=%s|key=%q|srctype=%q|tags=%q|source=%q|pri=%d|alert=%d", e.Title, e.Text, date, e.AggregationKey, e.SourceTypeName, []string(e.Tags), e.Source, e.Priority, e.AlertType)
 }
 
 func (c14) Run(e *Env) {
@@ -229,7 +236,7 @@ func (c14) Run(e *Env) {
 		}
 		for ; evsSeen < up.NEvents(); evsSeen++ {
 			c := up.EventAt(evsSeen).Copy
-			out = append(out, exactEvent(&c))
+			out = append(out, exactEvent(&c, false))
 		}
 		return out
 	}
@@ -239,7 +246,7 @@ func (c14) Run(e *Env) {
 			ev := genEvent()
 			exp := *ev
 			exp.Tags = append(gostatsd.Tags(nil), ev.Tags...)
-			expected[exactEvent(&exp)]++
+			expected[exactEvent(&exp, true)]++
 			e.Event("dispatch event %q", ev.Title)
 			hfh.DispatchEvent(ctx, ev)
 			return
@@ -387,6 +394,7 @@ func (c14) Run(e *Env) {
 					mode = 4
 				}
 				out := HTTPOutcome{Kind: "serve"}
+				shortened := false // the body arrives as a strict prefix of what was sent
 				if r.Path == "/v2/raw" && mode != 4 {
 					// the bytes of a metrics body are not the same in every execution (protobuf map
 					// fields are written in Go map order), so neither is what a bit flip at offset n hits
@@ -405,13 +413,26 @@ func (c14) Run(e *Env) {
 						return c
 					}
 				case 1:
-					out.DamageBody = func(b []byte) []byte { return append([]byte(nil), b[:e.Draw(len(b)+1)]...) }
+					out.DamageBody = func(b []byte) []byte {
+						n := e.Draw(len(b) + 1)
+						if compressed && e.Chance(1, 3) {
+							// at the structural boundaries of a frame: nothing, the magic, the frame header, the first block's size word
+							n = []int{0, 4, 7, 11}[e.Draw(4)]
+						}
+						if n > len(b) {
+							n = len(b)
+						}
+						shortened = n < len(b)
+						return append([]byte(nil), b[:n]...)
+					}
 				case 2: // truncated right before the trailing checksum of a compressed stream
 					out.DamageBody = func(b []byte) []byte {
-						if len(b) < 5 {
+						if len(b) < 10 {
+							shortened = len(b) > 0
 							return nil
 						}
-						return append([]byte(nil), b[:len(b)-1-e.Draw(4)]...)
+						shortened = true
+						return append([]byte(nil), b[:len(b)-1-e.Draw(9)]...)
 					}
 				case 3:
 					out.DamageBody = func(b []byte) []byte { return append(append([]byte(nil), b...), byte(e.Draw(256)), byte(e.Draw(256))) }
@@ -433,6 +454,17 @@ func (c14) Run(e *Env) {
 						e.Failf("C14/dispatch-count", "a damaged %s request answered %d dispatched %d items", r.Path, r.Status, len(d))
 					}
 					e.Probe("damage-decoded-anyway")
+					if shortened && compressed {
+						// A compressed stream that ends early cannot be decompressed. The only thing that may
+						// be accepted is a stream of which just the trailer is missing: then all the data was there.
+						if len(d) != 1 || expected[d[0]] == 0 {
+							e.Failf("C14/truncated-stream-accepted", "a %s request whose %s body was cut short in flight was answered %d and dispatched %d items, none of them what the forwarder was given: the sender believes its data delivered", r.Path, r.Header.Get("Content-Encoding"), r.Status, len(d))
+						}
+						e.Probe("truncated-trailer-accepted-with-all-data")
+						delivered[d[0]]++
+						e.Event("truncated %s accepted with all data", r.Path)
+						break
+					}
 					// the forwarder believes it is delivered; whatever was decoded is not judged (no checksum on identity bodies)
 					for k, n := range expected {
 						_ = n
